@@ -3,6 +3,7 @@
   `C15c.C15_resumes`.
 -/
 import WS.Props.C15c
+import WS.Props.C15d
 namespace WS.Props.C14e
 open WS WS.Model.App WS.Lemmas.App
 open WS.Spec.AppTrace (cbOnly)
@@ -30,6 +31,31 @@ theorem C14_terminates_reconnecting (c : Cfg) (hq : Quiet c) (hacc : argsAccepte
   rw [h3]
   simp only [finalCb, cbTrace, hoc, Bool.not_true, Bool.false_eq_true, ↓reduceIte]
   simp only [hq.2.2, reduceCtorEq, Bool.false_and, Bool.false_eq_true, ↓reduceIte]
+  simp [List.getLast?_append]
+
+/-- the same with the ping thread running (any interval ≥ 0, no ping timeout, every schedule): `C15d.C15_resumes_keepalive` -/
+theorem C14_terminates_reconnecting_keepalive (c : Cfg) (hq : Quiet c) (hto : c.to = none) (hiv : 0 ≤ c.iv)
+    (hr : c.reconnect ≠ 0) (hoc : c.has .onClose = true)
+    (s0 : St) (a : Att) (as : List Att) (legal : List TEv) (te : TEv) (body : Bytes)
+    (hs0 : s0.sock = none)
+    (hd : s0.dials = (a :: as).map Att.toDial ++ [.established (legal ++ [te])])
+    (hok : ∀ x ∈ a :: as, x.Ok)
+    (hleg : ∀ e ∈ legal, isLegal e.ev = true) (hk : te.ev = .close body)
+    (hfuel : need0 (selectTimeout c) (legal ++ [te]) + 1 ≤ c.fuel)
+    (hfl : ∀ x ∈ a :: as, x.fuel (selectTimeout c) ≤ c.fuel) (hfuel2 : as.length + 2 ≤ c.fuel)
+    (hz : endTime (attsEnd c.reconnect (attEnd s0.now a) as + c.reconnect) (legal ++ [te]) ≤ c.horizon) :
+    (runForeverO c s0).2 = .returned true ∧
+    (cbOnly (runForever c s0).trace).getLast? =
+      some (endTime (attsEnd c.reconnect (attEnd s0.now a) as + c.reconnect) (legal ++ [te]),
+            .cb .onClose (closeArgs c (some body))) := by
+  obtain ⟨h1, _, h3⟩ := C15d.C15_resumes_keepalive c hq hto hiv hr s0 a as legal te body hs0 hd hok hleg hk hfuel hfl hfuel2 hz
+  refine ⟨h1, ?_⟩
+  rw [h3]
+  have hoc' : (WS.Lemmas.App.KA.off c).has .onClose = true := hoc
+  have hq' : Quiet (WS.Lemmas.App.KA.off c) := hq
+  have hca : closeArgs (WS.Lemmas.App.KA.off c) (some body) = closeArgs c (some body) := rfl
+  simp only [finalCb, cbTrace, hoc', Bool.not_true, Bool.false_eq_true, ↓reduceIte]
+  simp only [hq'.2.2, reduceCtorEq, Bool.false_and, Bool.false_eq_true, ↓reduceIte, hca]
   simp [List.getLast?_append]
 
 end WS.Props.C14e
